@@ -9,7 +9,7 @@
 // attempt = comma separated fields, executed by the protected handler in this order:
 // (hp:K:V append to the value slice, h0:K:V / hl:K:V overwrite first / last value in place)
 // r:all|r:N (read body; rc: via io.Copy, rn: via io.CopyN, rp: via 7-byte Reads), hs:K:V ha:K:V hd:K u:/path (mutate its request copy), rh:K:V (response
-// header), s:CODE, w:LEN.SEED ... (Write calls; wc: io.Copy, wn: io.CopyN, ws: io.WriteString, wf: fmt.Fprintf), fl (Flush if the writer offers it), hj (Hijack).  A view is what the handler saw on
+// header), s:CODE (ls:CODE / lh:K:V: WriteHeader / header after the writes; pn: panic at the end), w:LEN.SEED ... (Write calls; wc: io.Copy, wn: io.CopyN, ws: io.WriteString, wf: fmt.Fprintf), fl (Flush if the writer offers it), hj (Hijack).  A view is what the handler saw on
 // entry: method|url|X-headers|cl=|te=|oh=(other headers same as incoming)|rd=bytes read|tf=temp
 // files on disk when it returned.  w= is what Buffer sent to the ResponseWriter it was given, cl=
 // says whether the real client received exactly that, left= temp files remaining afterwards.
@@ -108,10 +108,13 @@ type attempt struct {
 	whow    []string // per write: w Write, wc io.Copy, wn io.CopyN, ws io.WriteString, wf fmt.Fprintf
 	hijack  bool
 	flush   bool
+	lateHdr [][2]string
+	lateSt  int // -1 none: WriteHeader after the writes
+	panics  bool
 }
 
 func parseAttempt(s string) attempt {
-	a := attempt{read: -1, status: -1}
+	a := attempt{read: -1, status: -1, lateSt: -1}
 	for _, fld := range strings.Split(s, ",") {
 		p := strings.Split(fld, ":")
 		switch {
@@ -120,6 +123,12 @@ func parseAttempt(s string) attempt {
 			a.hijack = true
 		case fld == "fl":
 			a.flush = true
+		case fld == "pn":
+			a.panics = true
+		case p[0] == "lh" && len(p) == 3:
+			a.lateHdr = append(a.lateHdr, [2]string{p[1], p[2]})
+		case p[0] == "ls" && len(p) == 2:
+			a.lateSt = hx.Atoi(p[1])
 		case (p[0] == "r" || p[0] == "rc" || p[0] == "rn" || p[0] == "rp") && len(p) == 2:
 			a.how = p[0]
 			if p[1] != "all" {
@@ -159,6 +168,7 @@ type exchange struct {
 	hdr      http.Header
 	body     []byte
 	hijacked bool
+	panicked bool
 	done     chan struct{}
 	token    string
 }
@@ -238,7 +248,7 @@ func (s *scen) outer(w http.ResponseWriter, r *http.Request) {
 func (s *scen) inner(w http.ResponseWriter, r *http.Request) {
 	ex := s.cur
 	ex.inv++
-	a := attempt{read: -1, status: -1}
+	a := attempt{read: -1, status: -1, lateSt: -1}
 	if ex.inv <= len(ex.atts) {
 		a = ex.atts[ex.inv-1]
 	}
@@ -328,10 +338,21 @@ func (s *scen) inner(w http.ResponseWriter, r *http.Request) {
 			_, _ = w.Write(p)
 		}
 	}
+	for _, kv := range a.lateHdr {
+		w.Header().Add(kv[0], kv[1])
+	}
+	if a.lateSt >= 0 {
+		w.WriteHeader(a.lateSt)
+	}
 	if a.flush {
 		if fl, ok := w.(http.Flusher); ok {
 			fl.Flush()
 		}
+	}
+	ex.views = append(ex.views, view+"|rd="+showBytes(got)+"|tf="+strconv.Itoa(s.tmpCount()))
+	if a.panics {
+		ex.panicked = true
+		panic(http.ErrAbortHandler)
 	}
 	if a.hijack {
 		if h, ok := w.(http.Hijacker); ok {
@@ -343,10 +364,10 @@ func (s *scen) inner(w http.ResponseWriter, r *http.Request) {
 			}
 		}
 	}
-	ex.views = append(ex.views, view+"|rd="+showBytes(got)+"|tf="+strconv.Itoa(s.tmpCount()))
 }
 
 var tokenSeq int
+
 
 // envClass recognises local-port exhaustion (many harness processes, sockets in TIME_WAIT).
 func envClass(err error) string {
@@ -446,6 +467,9 @@ func (s *scen) doReq(f []string) string {
 			return "env-error " + class
 		}
 		cl = "ERR"
+		if ex.panicked {
+			cl = "aborted" // the handler panicked: net/http drops the connection, nothing was written
+		}
 	} else {
 		cbody, err = io.ReadAll(resp.Body)
 		resp.Body.Close()
@@ -468,6 +492,8 @@ func (s *scen) doReq(f []string) string {
 	}
 	if cl == "ok" {
 		switch {
+		case ex.panicked:
+			cl = fmt.Sprintf("MISMATCH(panic-answered:%d)", resp.StatusCode)
 		case ex.hijacked:
 			if resp.StatusCode != 299 {
 				cl = fmt.Sprintf("MISMATCH(hijack:%d)", resp.StatusCode)
